@@ -253,7 +253,11 @@ var zzC05Shapes = [][]int{
 	{zzKCreateScript, zzKCreateScript, zzKCreateScript},
 	{zzKCreateCancel, zzKCreateScript},
 	{zzKCreateCancel, zzKSetAccountMeta},
+	{zzKCreatePreview, zzKCreateScript},
+	{zzKCreatePreview, zzKSetAccountMeta},
 }
+
+const zzKCreatePreview = 104 // a dry-run create running among the real writes
 
 const zzKCreateCancel = 102 // create whose client gives up (context cancelled) at an arbitrary moment
 
@@ -268,6 +272,10 @@ func ZZ_C05Desc(i int) string {
 		}
 		if k == zzKCreateCancel {
 			s += " create(client gives up at an arbitrary moment)"
+			continue
+		}
+		if k == zzKCreatePreview {
+			s += " create(dry run)"
 			continue
 		}
 		s += " " + zzKindNames[k]
@@ -287,6 +295,9 @@ func ZZ_C05(shape int) {
 		}
 		if k == zzKCreateCancel {
 			ops[i].Kind, ops[i].Cancel = zzKCreateScript, true
+		}
+		if k == zzKCreatePreview {
+			ops[i].Kind, ops[i].DryRun = zzKCreateScript, true
 		}
 	}
 	zzRunClients(w, ops, "")
@@ -347,12 +358,19 @@ func ZZ_C06(shape int) {
 		if k == zzKCreateCancel {
 			ops[i].Kind, ops[i].Cancel = zzKCreateScript, true
 		}
+		if k == zzKCreatePreview {
+			ops[i].Kind, ops[i].DryRun = zzKCreateScript, true
+		}
 	}
 	res := zzRunClients(w, ops, "")
 	verifhook.Reach("quiescent")
 	logs := w.store.Logs()[1:]
 	for i, r := range res {
 		n := zzCountTag(w.store, ops[i].Tag)
+		if ops[i].DryRun {
+			verifhook.Assert(n == 0, "C06 a preview left a log entry")
+			continue
+		}
 		if r.returned && r.err == nil {
 			verifhook.Assert(r.ownLogAtAck, "C06 a write was acknowledged before its log entry was persisted")
 			verifhook.Assert(n == 1, "C06 an acknowledged write corresponds to exactly one log entry")
@@ -729,5 +747,84 @@ func ZZ_C05Fresh(shape int) {
 		zzCheckChainFromZero(st, fmt.Sprintf("C05 (stage %d)", si))
 	}
 	verifhook.Reach("all-stages")
+	verifhook.Canary()
+}
+
+// ---------- C16 with clients that give up ----------
+
+var zzC16ConcShapes = [][]int{
+	{zzKCreateCancel},
+	{zzKCreateCancel, zzKCreateScript},
+	{zzKRevertCancel},
+	{zzKCreateCancel, zzKSetAccountMeta},
+}
+
+const zzKRevertCancel = 103
+
+func ZZ_C16ConcN() int { return len(zzC16ConcShapes) }
+
+func ZZ_C16ConcDesc(i int) string {
+	s := "concurrent:"
+	for _, k := range zzC16ConcShapes[i] {
+		switch k {
+		case zzKCreateCancel:
+			s += " create(client gives up at an arbitrary moment)"
+		case zzKRevertCancel:
+			s += " revert(client gives up at an arbitrary moment)"
+		default:
+			s += " " + zzKindNames[k]
+		}
+	}
+	return s
+}
+
+// ZZ_C16Conc: whatever the clients do while their request is under way, once the system
+// is at rest every persisted log entry has been published, and every published event
+// describes a persisted entry.
+func ZZ_C16Conc(shape int) {
+	kinds := zzC16ConcShapes[shape]
+	w, _, _, _, N := zzConcWorld(false)
+	ops := make([]zzOp, len(kinds))
+	for i, k := range kinds {
+		ops[i] = zzOp{Kind: k, Amt: zzPosAmt(fmt.Sprintf("amt%d", i)), Target: N, Tag: fmt.Sprintf("t%d", i)}
+		switch k {
+		case zzKCreateCancel:
+			ops[i].Kind, ops[i].Cancel = zzKCreateScript, true
+		case zzKRevertCancel:
+			ops[i].Kind, ops[i].Cancel, ops[i].Force = zzKRevert, true, true
+		}
+	}
+	zzRunClients(w, ops, "")
+	verifhook.Reach("quiescent")
+	logs := w.store.Logs()[1:]
+	committed, reverted, saved := 0, 0, 0
+	for _, e := range w.monitor.events {
+		switch e.Kind {
+		case "committed":
+			committed++
+			l, _, _ := zzLogOfTx(w.store, e.Tx.ID)
+			verifhook.Assert(l != nil, "C16 a committed-transaction event names a transaction that is not persisted")
+		case "reverted":
+			reverted++
+			l, _, _ := zzLogOfTx(w.store, e.Tx.ID)
+			verifhook.Assert(l != nil, "C16 a reverted-transaction event names a revert that is not persisted")
+		case "saved":
+			saved++
+		}
+	}
+	nTx, nRev, nSaved := 0, 0, 0
+	for _, l := range logs {
+		switch l.Data.(type) {
+		case ledger.NewTransactionLogPayload:
+			nTx++
+		case ledger.RevertedTransactionLogPayload:
+			nRev++
+		case ledger.SetMetadataLogPayload:
+			nSaved++
+		}
+	}
+	verifhook.Assert(committed == nTx, "C16 a persisted transaction was never published (or published twice)")
+	verifhook.Assert(reverted == nRev, "C16 a persisted revert was never published (or published twice)")
+	verifhook.Assert(saved == nSaved, "C16 a persisted metadata change was never published (or published twice)")
 	verifhook.Canary()
 }
